@@ -28,6 +28,8 @@ var c04Shapes = []string{
 	// leading anchors (prefix.go:880)
 	`^a`, `\Aa|\Ab`, `(?:\Aa|\Ab)c`, `(?:\Aa|^b)`, `(?:\Aa|b)`, `\Ga`, `(?m)^a`, `\zx`, `\Zx`, `$a`, `(?m)$a`, `\ba`, `\Ba`, `(?>\Aa)`, `(\A)a`, `(?=x)\Aa`, `(?!x)\Aa`, `()\Aa`, `(?<=x)\Ga`,
 	`(?:\A)+a`, `(?:\Aa)+`, `a?\Ab`, `(?:\A|\G)a`, `(?:\G|\G)a`, `(?m)(?:^a|^b)`, `\b\Aa`, `\A\ba`,
+	// right-to-left leading anchors (the parser reverses concatenations: the LAST written node leads)
+	`a\A`, `ab\A`, `a\G`, `a\z`, `a\Z`, `a$`, `a^`, `(?m)a^`, `(?:a\A|b\A)`, `a\b\A`, `a(?=b)\A`, `(a\A)`,
 	// lengths (tree.go:1875, :1947), saturation (tree.go:1414-1470)
 	`(?:(?:ab){50000}){50000}`, `(?:(?:(?:ab){2000}){2000}){2000}c`, `(?:(?:ab){50000}){50000}$`, `(?:(?:a|bc){46341}){46341}\z`, `(?:(?:a|bc){46340}){46340}\z`,
 	`(?:ab){2147483646}c`, `(?:[ab]c){1073741823}d\z`, `(?:[ab]c){1073741824}d\z`, `a{2147483646}b`, `a{2147483646}bc$`, `a{2147483645}b$`,
@@ -42,7 +44,7 @@ var c04Shapes = []string{
 }
 
 func legC04Analysis(c *Ctx) {
-	c.Rule("patterns: analysis shapes (lookahead wrapper, trailing/leading anchors, saturating lengths, conditionals, balancing groups, leading literals) and FindMode shapes x {LTR,RTL} x {code-gen analysis off,on}, random ASTs over the full generator syntax, harvested test patterns; for each, syntax.Parse + syntax.Write, the post-rewrite tree is exported and the extracted Analysis model must reproduce exactly: MinRequiredLength, MaxPossibleLength, LeadingAnchor, TrailingAnchor, FindMode (modes 1-12, else 'later'), the bytes of LeadingPrefix in the LeadingString modes, the legacy Code.Anchors, the Boyer-Moore prefix runes and case flag, and the theorem hypotheses shape_ok/no_ci_lit expected of every real tree; non-trivial = some fact is not the default (distinct by pattern,options,analysis mode)")
+	c.Rule("patterns: analysis shapes (lookahead wrapper, trailing/leading anchors, saturating lengths, conditionals, balancing groups, leading literals) and FindMode shapes x {LTR,RTL} x {code-gen analysis off,on}, random ASTs over the full generator syntax, harvested test patterns; for each, syntax.Parse + syntax.Write, the post-rewrite tree is exported and the extracted Analysis model must reproduce exactly: MinRequiredLength, MaxPossibleLength, LeadingAnchor, TrailingAnchor, FindMode (modes 1-12, else 'later'), the bytes of LeadingPrefix in the LeadingString modes, the legacy Code.Anchors, the Boyer-Moore prefix runes and case flag, and the theorem hypotheses shape_ok/no_ci_lit/look_ok expected of every real tree; non-trivial = some fact is not the default (distinct by pattern,options,analysis mode)")
 	var pats []patCase
 	for _, s := range c04Shapes {
 		for _, rtl := range []bool{false, true} {
@@ -123,8 +125,8 @@ func legC04Analysis(c *Ctx) {
 		} else {
 			out = append(out, 0, 0, 0)
 		}
-		// the hypotheses of the C04 theorems (shape_ok for the pattern's direction, no_ci_lit) hold of every real tree
-		out = append(out, 1, 1)
+		// the hypotheses of the C04 theorems (shape_ok for the pattern's direction, no_ci_lit, look_ok) hold of every real tree
+		out = append(out, 1, 1, 1)
 		seen[fmt.Sprintf("mode%d", mode)]++
 		if fo.MaxPossibleLength >= 0 {
 			seen["max"]++
